@@ -161,13 +161,14 @@ type Session struct {
 	Frames []ParsedFrame // everything the node has written, in order
 	rest   []byte
 
-	interrupt chan interface{}
-	runDone   chan struct{}
-	RunErr    error
-	RunPanic  string
-	txDone    chan struct{}
-	nonce     uint64
-	shared    bool
+	interrupt     chan interface{}
+	interruptOnce sync.Once
+	runDone       chan struct{}
+	RunErr        error
+	RunPanic      string
+	txDone        chan struct{}
+	nonce         uint64
+	shared        bool
 }
 
 const PeerAddress = "127.0.0.1:8333"
@@ -407,11 +408,17 @@ func blockedFrame() string {
 
 // Finish closes the connection from the peer side (if still open), interrupts and waits for Run.
 // It returns whether Run returned within the time allowed.
+// InterruptNode closes the node's interrupt channel (the embedding program shuts the node down)
+// while the connection stays open.
+func (s *Session) InterruptNode() {
+	s.interruptOnce.Do(func() { close(s.interrupt) })
+}
+
 func (s *Session) Finish(maxWait time.Duration) bool {
 	s.Conn.PeerClose()
 	ok := s.waitRun(maxWait)
 	if !ok {
-		close(s.interrupt)
+		s.InterruptNode()
 		ok = s.waitRun(maxWait)
 	}
 	if s.TxManager != nil && !s.shared {
@@ -436,3 +443,6 @@ func (s *Session) Sent() []string {
 	}
 	return r
 }
+
+// WaitRun waits until the node's run has returned (true) or d has passed.
+func (s *Session) WaitRun(d time.Duration) bool { return s.waitRun(d) }
